@@ -1,6 +1,7 @@
 import Grass.Selector
 import GrassProofs.Lemmas.SelSem
 import GrassProofs.Lemmas.SelWalk
+import GrassProofs.Lemmas.SelPseudo
 /-
   C11 — Selector functions are sound with respect to element matching.
 
@@ -16,14 +17,15 @@ import GrassProofs.Lemmas.SelWalk
     `+`, `~`) — for the code as it stands (`asFound = false`: with
     `compatible_with_previous_combinator`, complex.rs:289, added by fix 75edc67); the walk found
     on the pinned tree (`asFound = true`) is unsound, see `C11_asFound_walk_unsound`;
-  * STILL OPEN: selector pseudos (`:not/:is/:where/:matches(...)`) on the *left* of
-    `is-superselector` (`Pseudo::is_super_selector`, simple.rs:493) are modelled (`superPseudo`) and
-    tied to the code by the correspondence run, but their soundness is not proved; the full
-    statement is `C11_full`.
+  * selector pseudos on the LEFT (`Pseudo::is_super_selector`, simple.rs:493): the arms `not` and
+    `matches | is | any | where` are modelled (`superPseudo`) and proved sound together with the
+    compound / complex / list levels by induction on the fuel (`C11_full_proved`); the arms
+    `has | host | host-context`, `slotted`, `current`, `nth-child | nth-last-child (.. of S)` are
+    outside the modelled alphabet (the model's parser answers `unsupported` for them).
 -/
 namespace Grass.Selector
 
-/-- The full property for `is-superselector` (not proved in this cut: selector pseudos on the left). -/
+/-- The full property for `is-superselector` over the modelled alphabet (proved: `C11_full_proved`). -/
 def C11_full : Prop :=
   ∀ (fuel : Nat) (L1 L2 : SelList) (p : Ctx),
     superList fuel false L1 L2 = true → matchesList L2 p = true → matchesList L1 p = true
@@ -82,43 +84,41 @@ theorem superCompound_sound_noSel (f : Nat) (af : Bool) (c d : Compound) (ps : C
     (hc : noSelC c = true) (h : superCompound f af c d ps = true) (hd : mComp d q = true) :
     mComp c q = true := C11_isSuperCompound_sound_fuel f af c d ps q hc h hd
 
-/-- **is-superselector on complex selectors, for the code as it stands** (descendant, child,
-    next-sibling and following-sibling combinators): if the walk answers `true`, every element
-    context matched by `B` is matched by `A`.  Explicit guard: `A` carries no selector pseudo
-    (`B` is arbitrary) — selector pseudos on the left are what `C11_full` still asks for. -/
+/-- **is-superselector on complex selectors, for the code as it stands** — all four combinators,
+    selector pseudos (`:not`, `:is`, `:where`, `:matches`, `:any`, nested to any depth) allowed on
+    both sides: if the walk answers `true`, every element context matched by `B` is matched by `A`.
+    (Out of fuel the model answers `false`, so the statement holds for every fuel.) -/
 theorem C11_isSuperComplex_sound (f : Nat) (A B : Complex) (p : Ctx)
-    (hA : noSelX A = true) (h : superComplex f false A B = true)
-    (hB : matchesComplex B p = true) : matchesComplex A p = true := by
-  cases f with
-  | zero => simp [superComplex] at h
-  | succ f =>
-    unfold superComplex at h
-    split at h
-    · cases h
-    · obtain ⟨q, hq⟩ := (matchesComplex_iff B p).1 hB
-      have := walk_sound (fun c d ps => superCompound f false c d ps) (fun c => noSelC c = true)
-        (fun c d ps q hc hs hd => superCompound_sound_noSel f false c d ps q hc hs hd)
-        A.length A none B (Nat.le_refl _)
-        (fun c hc => by have := (List.all_eq_true.1 hA) _ hc; simpa using this)
-        (by intro hs; rcases hs with hs | hs | hs <;> cases hs) h q p hq
-      obtain ⟨q', hq', _⟩ := this
-      exact (matchesComplex_iff A p).2 ⟨q', hq'⟩
+    (h : superComplex f false A B = true) (hB : matchesComplex B p = true) : matchesComplex A p = true :=
+  (sound_all f).2.2.1 A B p h hB
 
-/-- list level (list.rs:254), same guard -/
+/-- list level (list.rs:254): `is-superselector(L1, L2)` -/
 theorem C11_isSuperList_sound (f : Nat) (L1 L2 : SelList) (p : Ctx)
-    (hA : noSelL L1 = true) (h : superList f false L1 L2 = true)
-    (hB : matchesList L2 p = true) : matchesList L1 p = true := by
-  cases f with
-  | zero => simp [superList] at h
-  | succ f =>
-    unfold superList at h
-    unfold matchesList at hB ⊢
-    rw [List.any_eq_true] at hB ⊢
-    obtain ⟨c1, hc1, hm⟩ := hB
-    have := (List.all_eq_true.1 h) c1 hc1
-    rw [List.any_eq_true] at this
-    obtain ⟨c2, hc2, hs⟩ := this
-    exact ⟨c2, hc2, C11_isSuperComplex_sound f c2 c1 p ((List.all_eq_true.1 hA) c2 hc2) hs hm⟩
+    (h : superList f false L1 L2 = true) (hB : matchesList L2 p = true) : matchesList L1 p = true :=
+  (sound_all f).2.2.2 L1 L2 p h hB
+
+theorem C11_full_proved : C11_full := fun f L1 L2 p h hB => C11_isSuperList_sound f L1 L2 p h hB
+
+/-- compound level with selector pseudos (compound.rs:69): `parents` are the components of the
+    subselector that, together with `B`, are matched at the same context (`Hps`) -/
+theorem C11_superCompound_sound (f : Nat) (A B : Compound) (ps : Complex) (q : Ctx)
+    (h : superCompound f false A B ps = true) (hB : mComp B q = true) (hps : Hps ps B q) : mComp A q = true :=
+  (sound_all f).1 A B ps q h hB hps
+
+/-- `Pseudo::is_super_selector` (simple.rs:493), arms `not` and `matches | is | any | where` -/
+theorem C11_superPseudo_sound (f : Nat) (k : PName) (arg : List RComplex) (B : Compound) (ps : Complex) (q : Ctx)
+    (h : superPseudo f false k arg B ps = true) (hB : mComp B q = true) (hps : Hps ps B q) :
+    mSimple (.sel k arg) q = true :=
+  (sound_all f).2.1 k arg B ps q h hB hps
+
+-- non-vacuity: pseudos on the left, nested, with combinators
+example : superComplex 8 false
+    [.compound [.type ['a']], .comb .child, .compound [.sel .not [([.cls ['x']], []), ([.type ['c']], [(.desc, [.cls ['y']])])]]]
+    [.compound [.type ['a'], .cls ['z']], .comb .child, .compound [.sel .not [([.cls ['x']], [])], .sel .not [([.type ['c']], [])]]]
+    = true := by decide +kernel
+example : superComplex 8 false
+    [.compound [.sel .is [([.type ['a']], []), ([.cls ['x']], [(.child, [.type ['b']])])]]]
+    [.compound [.type ['b']], .comb .child, .compound [.cls ['x'], .cls ['y']]] = true := by decide +kernel
 
 /-- the walk with the pseudo-free compound test (used by `trim` in C10), sound for arbitrary compounds -/
 theorem isSuperComplex0_sound (A B : Complex) (p : Ctx) (h : isSuperComplex0 false A B = true)
@@ -128,7 +128,7 @@ theorem isSuperComplex0_sound (A B : Complex) (p : Ctx) (h : isSuperComplex0 fal
   · cases h
   · obtain ⟨q, hq⟩ := (matchesComplex_iff B p).1 hB
     obtain ⟨q', hq', _⟩ := walk_sound (fun c d _ => superCompound0 c d) (fun _ => True)
-      (fun c d _ q _ hs hd => C11_isSuperCompound_sound c d q hs hd) A.length A none B (Nat.le_refl _)
+      (fun c d _ q _ hs hd _ => C11_isSuperCompound_sound c d q hs hd) A.length A none B (Nat.le_refl _)
       (fun _ _ => trivial) (by intro hs; rcases hs with hs | hs | hs <;> cases hs) h q p hq
     exact (matchesComplex_iff A p).2 ⟨q', hq'⟩
 
